@@ -13,7 +13,7 @@ import os
 
 import vlib
 
-FILES = ["TestNifFile_Optimize_LE_to_SE.nif", "TestNifFile_Skinned_OB.nif", "TestNifFile_Static_FO4_132.nif", "TestNifFile_Skinned_FO4.nif",
+FILES = ["TestNifFile_Optimize_LE_to_SE.nif", "TestNifFile_Skinned_OB.nif", "TestNifFile_SF.nif", "TestNifFile_Static_FO4_132.nif", "TestNifFile_Skinned_FO4.nif",
          "TestNifFile_Static_SE.nif",
          "TestNifFile_Furniture_Col_SE.nif", "TestNifFile_Animated_LE.nif"]
 
@@ -26,9 +26,11 @@ def run(tier):
     # thorough: every behaviour of depth 2 on all models, and of depth 3 on the model whose shapes cache a pointer into a
     # separate geometry block (about 21 000 behaviours under ASan)
     passes = [(2, FILES[:3])] if tier == "quick" else [(2, FILES), (3, FILES[:1])]
+    # every sample file: the copy alone (constructor and assignment), judged like the first step of a behaviour
+    passes.insert(0, (0, sorted(f for f in os.listdir(os.path.join(vlib.REPO, "tests", "input")) if f.endswith(".nif"))))
     for depth, files in passes:
         cfg = os.path.join(wd, "mc.cfg")
-        open(cfg, "w").write("SPECIFICATION Spec\nCONSTANTS Depth = %d\n Pre = 1\n Export = TRUE\nINVARIANT CopyEqual\nINVARIANT Emit\nCHECK_DEADLOCK FALSE\n" % depth)
+        open(cfg, "w").write("SPECIFICATION Spec\nCONSTANTS Depth = %d\n Pre = %d\n Export = TRUE\nINVARIANT CopyEqual\nINVARIANT Emit\nCHECK_DEADLOCK FALSE\n" % (depth, 0 if depth == 0 else 1))
         hists = os.path.join(wd, "hists.ndjson")
         r = vlib.tlc("NifCopy", cfg, workers=8, timeout=3000, export_to=hists, tag="c11-mc", heap="8g")
         ck.add_tlc("NifCopy(Depth=%d)" % depth, r, "interleavings of edits, saves and destructions after a copy")
